@@ -528,6 +528,10 @@ pub fn run(p: &Params) -> (Stats, &'static str) {
             raw_bind_case(&mut st, seed);
         } else if i % 8 == 5 {
             after_end_case(&mut st, seed);
+        } else if i % 16 == 11 {
+            // a Connect carrying the id of the endpoint's own unanswered bind request (C07's raw-peer case): the request stays
+            // pending and resolves with the peer's later answer
+            crate::c07::raw_bad_connect_case(&mut st, seed);
         } else if i % 16 == 7 {
             cancel_case(&mut st, seed);
         } else if i % 16 == 15 {
